@@ -6,8 +6,9 @@
        ; program.tau_star()                      (Model/TauStar.v;   None = overflow panic, F11)
            .replace_placeholders(..)             (Model/Outline.v)
            .completion(inputs).expect(..)        (Model/Completion.v; None = panic)
-           + the empty completed definitions of the missing output predicates
-                                                 (Model/External.v missing_output_definitions; /repo 70e6ace)
+           + the empty completed definitions of the missing output predicates that occur in the task
+                                                 (Model/External.v missing_output_definitions,
+                                                  task_occurring_predicates; /repo 70e6ace, 18b2e85)
        ; [INTUITIONISTIC, HT, CLASSIC].concat().compose(), apply_fixpoint on every formula
                                                  (Model/SimplIntuit.v, SimplClassic.v, StrategyCls.v;
                                                   panics of the classic rewrites visible)
@@ -80,7 +81,8 @@ Definition translate_status (fuel : nat) (t : ext_task) (m : placeholders) (p : 
       | None => TPanic
       | Some th =>
           if et_simplify t
-          then simplify_status fuel (th ++ missing_output_definitions (ug_output_predicates (et_user_guide t)) th)
+          then simplify_status fuel (th ++ missing_output_definitions (ug_output_predicates (et_user_guide t))
+                                                                      (task_occurring_predicates t) th)
           else TDone
       end
   end.
